@@ -520,6 +520,15 @@ func (r *rig) answerActor(rank int) *gx.Actor {
 				s.mu.Unlock()
 				s.out <- wop{data: frame(q.corr+1000, b)}
 			}},
+			gx.Variant{Name: "stale-id", Do: func() { // a duplicate of an earlier answer (lower correlation id) precedes the proper answer
+				take("stale-id", true)
+				s.mu.Lock()
+				b := s.body(q, "stale-id", false)
+				b2 := s.body(q, "after-stale-id", false)
+				s.mu.Unlock()
+				s.out <- wop{data: frame(q.corr-1, b)}
+				s.out <- wop{data: frame(q.corr, b2)}
+			}},
 			gx.Variant{Name: "trunc-hdr", Do: func() { // 6 of the 8 header bytes, then the connection goes away
 				take("trunc-hdr", true)
 				s.mu.Lock()
